@@ -215,7 +215,10 @@ func (g *c07G) lookupPair(label string, a c09Acct) (int, uint64) {
 }
 
 func (g *c07G) machineID(label string) uint64 {
-	c := []uint64{0, 0, 0, 1, 1, 2, 7, 1 << 32, ^uint64(0)}
+	c := []uint64{0, 0, 0, 0, 0, 0, 1, 1, 2, 7, 1 << 32, ^uint64(0)}
+	if g.in.Ref.Expunge0 {
+		c = append(c, 1, 1, 1, 1)
+	}
 	return g.pick(label, c...)
 }
 
@@ -312,9 +315,9 @@ func (g *c07G) guided(id uint64) {
 		}
 	case 11:
 		r[7] = g.machineID("pg_n")
-		r[8] = g.pick("pg_p", 16, 16, 16, 17, 15, 0, 18, 0xFFFFE, 0xFFFFF, 0x100000, 1<<32, ^uint64(0))
-		r[9] = g.pick("pg_c", 0, 1, 1, 2, 3, 0xFFFFF, 1<<20, ^uint64(0))
-		r[10] = g.pick("pg_r", 0, 1, 2, 2, 3, 4, 5, 255, 1<<32)
+		r[8] = g.pick("pg_p", 16, 16, 16, 16, 17, 17, 18, 15, 0, 0xFFFFE, 0xFFFFF, 0x100000, 1<<32, ^uint64(0))
+		r[9] = g.pick("pg_c", 0, 1, 1, 1, 2, 2, 3, 0xFFFFF, 1<<20, ^uint64(0))
+		r[10] = g.pick("pg_r", 0, 1, 1, 2, 2, 2, 3, 4, 5, 255, 1<<32)
 	case 12:
 		r[7] = g.machineID("iv_n")
 		blk := make([]byte, 112)
@@ -359,7 +362,7 @@ func (g *c07G) guided(id uint64) {
 		r[8] = g.pick("n_l", 0, 5, 100, 200, 1<<20, 1<<32-1, 1<<32, ^uint64(0))
 		r[9], r[10] = uint64(g.n("n_g", 0, 100)), uint64(g.n("n_m", 0, 100))
 		r[11] = g.pick("n_f", 0, 0, 0, 5)
-		r[12] = g.pick("n_i", 0, 100, 65535, g.other, g.caller, 65536, 1<<32-1, ^uint64(0))
+		r[12] = g.pick("n_i", 0, 100, 65535, g.other, g.other, g.other, g.caller, 65536, 1<<32-1, ^uint64(0))
 	case 19:
 		r[7] = g.hashAddr("u_o", g.anyHash("u_h"))
 		r[8], r[9] = g.reg("u_g"), g.reg("u_m")
@@ -386,8 +389,19 @@ func (g *c07G) guided(id uint64) {
 	case 25:
 		r[7] = g.hashAddr("y_o", g.anyHash("y_h"))
 	case 26:
-		r[7], _ = g.target("p_t")
-		b := seq.Blobs[g.n("p_b", 0, len(seq.Blobs)-1)]
+		var pacct c09Acct
+		r[7], pacct = g.target("p_t")
+		bi := g.n("p_b", 0, len(seq.Blobs)-1)
+		var requested []int
+		for _, l := range pacct.Lookups {
+			if l.HashIdx < len(seq.Blobs) && int(l.Z) == len(seq.Blobs[l.HashIdx]) && len(l.Slots) == 0 {
+				requested = append(requested, l.HashIdx)
+			}
+		}
+		if len(requested) > 0 && g.n("p_req", 0, 3) != 0 {
+			bi = rapid.SampledFrom(requested).Draw(g.rt, "p_reqb")
+		}
+		b := seq.Blobs[bi]
 		r[8], r[9] = g.place("p_o", uint64(len(b)), b, false), uint64(len(b))
 	case 100:
 		r[7] = g.pick("lg_lvl", 0, 1, 2, 3, 4, 5, ^uint64(0))
@@ -401,29 +415,54 @@ func (g *c07G) guided(id uint64) {
 }
 
 // c07Boost reshapes the C09 accounts (as data) so that provide / eject can succeed.
-func (g *c07G) boost() {
-	seq := &g.in.Seq
-	hasPair := func(a *c09Acct, h int, z uint32) bool {
-		for _, l := range a.Lookups {
-			if l.HashIdx == h && l.Z == z {
-				return true
-			}
+func c07HasPair(a *c09Acct, h int, z uint32) bool {
+	for _, l := range a.Lookups {
+		if l.HashIdx == h && l.Z == z {
+			return true
 		}
-		return false
 	}
-	if g.n("boost_eject", 0, 3) == 0 {
+	return false
+}
+
+// boostPreimage adds an available preimage (lookup entry [x] with x <= t plus the blob) to one account.
+func (g *c07G) boostPreimage() {
+	seq := &g.in.Seq
+	if g.n("boost_pre", 0, 2) == 0 {
+		return
+	}
+	a := &seq.Caller
+	if g.n("bpre_who", 0, 1) == 0 && !g.in.Acc.EjectOther {
+		a = &seq.Other
+	}
+	b := g.n("bpre_b", 0, len(seq.Blobs)-1)
+	z := uint32(len(seq.Blobs[b]))
+	if !c07HasPair(a, b, z) && len(a.Lookups) < 6 && a.Balance < 1<<62 {
+		x := uint32(g.pick("bpre_x", 0, 0, uint64(seq.Timeslot), uint64(seq.Timeslot)))
+		a.Lookups = append(a.Lookups, c09Lkp{HashIdx: b, Z: z, Slots: []uint32{x}, Raw: g.n("bpre_raw", 0, 2) == 0})
+		a.Balance += 2*c09BI + 81 + uint64(z)
+	}
+}
+
+func (g *c07G) boost(id uint64) {
+	seq := &g.in.Seq
+	hasPair := c07HasPair
+	doEject := g.n("boost_eject", 0, 7) == 0
+	if id == 21 {
+		doEject = g.n("boost_eject21", 0, 4) != 0
+	}
+	if doEject {
 		g.in.Acc.EjectOther = true
 		if seq.Timeslot < 40 {
 			seq.Timeslot = uint32(g.pick("ej_t", 40, 100, 1000, 1<<32-1))
 		}
 		t := uint64(seq.Timeslot)
-		y := g.pick("ej_y", 0, t-33, t-33, t-34, t-32)
+		y := g.pick("ej_y", 0, t-33, t-33, t-33, t-34, t-32)
 		x := uint64(0)
 		if y > 0 {
 			x = y - 1
 		}
 		slots := []uint32{uint32(x), uint32(y)}
-		switch g.n("ej_shape", 0, 9) {
+		switch g.n("ej_shape", 0, 14) {
 		case 0:
 			slots = []uint32{}
 		case 1:
@@ -434,7 +473,7 @@ func (g *c07G) boost() {
 		z := uint32(g.pick("ej_z", 0, 5, 40))
 		seq.Other.Storage = nil
 		seq.Other.Lookups = []c09Lkp{{HashIdx: g.anyHash("ej_hidx"), Z: z, Slots: slots}}
-		if g.n("ej_two", 0, 7) == 0 {
+		if g.n("ej_two", 0, 11) == 0 {
 			seq.Other.Lookups = append(seq.Other.Lookups, c09Lkp{HashIdx: seq.Other.Lookups[0].HashIdx, Z: z + 1, Slots: []uint32{}})
 		}
 		seq.Other.Gratis = 0
@@ -444,7 +483,8 @@ func (g *c07G) boost() {
 		}
 		seq.Other.Balance = need + g.pick("ej_slack", 0, 7, 1000)
 	}
-	if g.n("boost_provide", 0, 1) == 0 {
+	g.boostPreimage()
+	if g.n("boost_provide", 0, 1) == 0 || id == 26 {
 		a := &seq.Caller
 		if g.n("bp_who", 0, 1) == 0 && !g.in.Acc.EjectOther {
 			a = &seq.Other
@@ -458,8 +498,12 @@ func (g *c07G) boost() {
 	}
 }
 
-func c07GenCtx(rt *rapid.T, in *c07Input, g *c07G) {
-	in.Kind = rapid.SampledFrom([]int{0, 0, 0, 0, 0, 0, 0, 0, 0, 0, 0, 1, 1, 1, 1, 1, 1, 1, 2, 2}).Draw(rt, "kind")
+func c07GenKind(rt *rapid.T) int {
+	return rapid.SampledFrom([]int{0, 0, 0, 0, 0, 0, 0, 0, 0, 0, 0, 1, 1, 1, 1, 1, 1, 1, 2}).Draw(rt, "kind")
+}
+
+// c07GenCtx draws the context; id is only a hint used to make that call's success path reachable more often.
+func c07GenCtx(rt *rapid.T, in *c07Input, g *c07G, id uint64) {
 	if in.Kind != 2 {
 		in.Seq = c09GenSeq(rt)
 		in.Seq.Ops = nil
@@ -478,8 +522,9 @@ func c07GenCtx(rt *rapid.T, in *c07Input, g *c07G) {
 		for i := 0; i < np; i++ {
 			in.Acc.Prefix = append(in.Acc.Prefix, g.n("prefix_op", 0, 4))
 		}
-		g.boost()
+		g.boost(id)
 	case 1:
+		g.boostPreimage()
 		rc := &in.Ref
 		rc.Items = g.n("items", 1, 3)
 		rc.ItemIdx = g.n("item_idx", 0, rc.Items-1)
@@ -497,25 +542,36 @@ func c07GenCtx(rt *rapid.T, in *c07Input, g *c07G) {
 		rc.ExportOff = g.pick("export_off", 0, 0, 0, 5, 3070, 3071, 3072, 3073)
 		rc.Exported = g.n("exported", 0, 2)
 		nm := int(g.pick("n_machines", 0, 1, 1, 2, 2))
+		if id >= 9 && id <= 13 && nm == 0 && g.n("force_machine", 0, 9) != 0 {
+			nm = 1
+		}
 		for i := 0; i < nm; i++ {
 			m := c07Machine{Prog: g.n("mprog", 0, len(c07InnerProgs)-1), PC: g.pick("mpc", 0, 0, 0, 13, 1000), Poke: g.n("mpoke", 0, 1) == 0}
 			for j, np := 0, g.n("m_npages", 0, 2); j < np; j++ {
 				m.Pages = append(m.Pages, [3]uint64{g.pick("mp", 16, 16, 17, 18), g.pick("mc", 1, 1, 2), g.pick("mr", 2, 2, 1)})
+			}
+			if (id == 9 || id == 10 || id == 12) && i == 0 && g.n("force_pages", 0, 3) != 0 {
+				m.Pages = append([][3]uint64{{16, 2, g.pick("fr", 2, 2, 1)}}, m.Pages...)
+				if len(m.Pages) > 3 {
+					m.Pages = m.Pages[:3]
+				}
 			}
 			rc.Machines = append(rc.Machines, m)
 		}
 		rc.Expunge0 = nm == 2 && g.n("expunge0", 0, 3) == 0
 	}
 	in.Pages = c07GenPages(rt)
-	in.Gas = rapid.OneOf(rapid.Just(int64(1)<<40), rapid.Just(int64(1)<<40), rapid.Just(int64(1)<<40), rapid.Just(int64(1)<<40),
-		rapid.Just(int64(10000)), rapid.Int64Range(0, 25)).Draw(rt, "gas")
+	in.Gas = int64(g.pick("gas", 1<<40, 1<<40, 1<<40, 1<<40, 1<<40, 1<<40, 1<<40, 1<<40, 10000, 10000, 10000, 1<<62))
+	if g.n("gas_low", 0, 19) == 0 {
+		in.Gas = int64(g.n("gas_low_val", 0, 25))
+	}
 }
 
 func (g *c07G) args(id uint64) {
 	for i := range g.in.Regs {
 		g.in.Regs[i] = g.reg("reg")
 	}
-	if g.n("guided", 0, 9) < 7 {
+	if g.n("guided", 0, 9) < 7 && (g.in.Kind != 2 || c07Defined(2, id)) {
 		g.guided(id)
 		if g.n("perturb", 0, 3) == 0 {
 			g.in.Regs[g.n("perturb_reg", 7, 12)] = g.reg("perturbed")
@@ -534,9 +590,10 @@ func c07ImmOf(id uint64, n int) []byte {
 func c07GenDirect(rt *rapid.T) c07Input {
 	var in c07Input
 	g := &c07G{rt: rt, in: &in}
-	c07GenCtx(rt, &in, g)
-	id := rapid.SampledFrom(c07IDs(in.Kind)).Draw(rt, "id")
+	in.Kind = c07GenKind(rt)
+	id := rapid.SampledFrom(c07GenOrder(in.Kind)).Draw(rt, "id")
 	in.Imm = c07ImmOf(id, 4)
+	c07GenCtx(rt, &in, g, id)
 	g.args(id)
 	return in
 }
@@ -544,11 +601,8 @@ func c07GenDirect(rt *rapid.T) c07Input {
 func c07GenDispatch(rt *rapid.T) c07Input {
 	var in c07Input
 	g := &c07G{rt: rt, in: &in}
-	c07GenCtx(rt, &in, g)
+	in.Kind = c07GenKind(rt)
 	in.Via = 1
-	if g.n("gas_small", 0, 3) == 0 {
-		in.Gas = int64(g.n("gas_val", 0, 14))
-	}
 	other := c07IDs((in.Kind + 1 + g.n("other_kind", 0, 1)) % 3)
 	k := rapid.SampledFrom(c07IDs(in.Kind)).Draw(rt, "def_id")
 	switch g.n("id_class", 0, 11) {
@@ -586,6 +640,21 @@ func c07GenDispatch(rt *rapid.T) c07Input {
 		in.Imm = []byte{}
 	}
 	id := c07Sext(in.Imm)
+	c07GenCtx(rt, &in, g, id)
+	if g.n("gas_small", 0, 4) == 0 {
+		in.Gas = int64(g.n("gas_val", 0, 14))
+	}
 	g.args(id)
 	return in
+}
+
+// generation order: rapid favours the first element, so the calls whose success path is hardest to reach come first
+func c07GenOrder(kind int) []uint64 {
+	switch kind {
+	case 0:
+		return []uint64{21, 26, 2, 20, 18, 24, 23, 22, 15, 14, 16, 3, 4, 5, 1, 19, 25, 17, 100, 0}
+	case 1:
+		return []uint64{6, 9, 10, 11, 12, 8, 7, 13, 1, 100, 0}
+	}
+	return []uint64{1, 100, 0}
 }
